@@ -209,6 +209,53 @@ def stale(rng, fr):
     return Fragment(list(fr.content), size)
 
 
+def check_accessors(ctx, info, a, reqs, metas, rng, wf=True, base=None):
+    """child / maybe_child / first_child / last_child / child_count and find_index of one Fragment object (also run by
+    C09 on the content of the nodes of generated documents)"""
+    schema = info.schema
+    ja = jsons(a.content)
+    if base is None:
+        base = {"schema": info.name, "a": ja, "a_size": a.size}
+    ta = toks_of_nodes(schema, a.content)
+    A = fobj(info, a)
+    tag = "" if wf else ":stale"
+    n = len(a.content)
+    # ---- child / maybe_child / first_child / last_child / child_count
+    for i in rng.sample(range(-n - 2, n + 2), min(3, 2 * n + 4)):
+        stc, c = outcome(lambda: a.child(i))
+        stm, m = outcome(lambda: a.maybe_child(i))
+        ctx.count("child:%s:%s" % ("neg" if i < 0 else "nonneg", "ok" if stc == "ok" else "raises"))
+        if stm != "ok":
+            ctx.violation("frag-maybe-child-raises", f"maybe_child raised {m}", dict(base, index=i))
+            continue
+        # what the accessors must do (independent of the model)
+        if (m is not None) != (0 <= i < n) or (m is not None and m is not a.content[i]):
+            ctx.violation("frag-maybe-child", "maybe_child(i) is not the i-th child for 0 <= i < child_count and None otherwise",
+                          dict(base, index=i))
+        if (stc == "ok") != (-n <= i < n):
+            ctx.count("child-outcome-unexpected")
+        enc = lambda x: None if x is None else info.node(x)
+        val = [{"ok": info.node(c)} if stc == "ok" else {"err": "internal" if stc not in ("failed", "valueError") else stc},
+               enc(m), enc(a.first_child), enc(a.last_child), a.child_count]
+        _req(reqs, metas, "foChildren", {"f": A, "index": i}, dict(base, fn="child", index=i), "ok", val)
+    # ---- find_index
+    for _ in range(3):
+        pos = rng.randint(-1, len(ta) + 2)
+        rnd = rng.choice([-1, -1, 1, 0])
+        st, r = outcome(lambda: a.find_index(pos, rnd))
+        ctx.count("find_index%s:%s" % (tag, st))
+        if wf and st == "ok":
+            off = sum(c.node_size for c in a.content[:r["index"]])
+            inside = r["offset"] == off and (off <= pos if rnd <= 0 else off >= pos or pos == 0)
+            if not inside:
+                ctx.violation("frag-find-index", "find_index offset is not the start of the indexed child on the right side of pos",
+                              dict(base, pos=pos, round=rnd, got=r))
+        elif wf and 0 <= pos <= len(ta):
+            ctx.violation("frag-find-index-raises", f"find_index raised {r} on a position inside", dict(base, pos=pos, round=rnd))
+        _req(reqs, metas, "foFindIndex", {"f": A, "pos": pos, "round": rnd}, dict(base, fn="find_index", pos=pos, round=rnd),
+             st, [r["index"], r["offset"]] if st == "ok" else None)
+
+
 def check_ops(ctx, info, a, b, node, reqs, metas, rng, wf=True):
     """a, b: Fragment objects (well-formed when `wf`, else possibly with a wrong stored size: tie only)"""
     schema = info.schema
@@ -284,24 +331,7 @@ def check_ops(ctx, info, a, b, node, reqs, metas, rng, wf=True):
         ctx.count("cut%s:%s" % (tag, st))
         _req(reqs, metas, "foCut", {"f": A, "from": f_, "to": t_}, dict(base, fn="cut", **{"from": f_, "to": t_}),
              st, frag_result(info, st, r))
-    # ---- child / maybe_child / first_child / last_child / child_count
-    for i in rng.sample(range(-n - 2, n + 2), min(3, 2 * n + 4)):
-        stc, c = outcome(lambda: a.child(i))
-        stm, m = outcome(lambda: a.maybe_child(i))
-        ctx.count("child:%s:%s" % ("neg" if i < 0 else "nonneg", "ok" if stc == "ok" else "raises"))
-        if stm != "ok":
-            ctx.violation("frag-maybe-child-raises", f"maybe_child raised {m}", dict(base, index=i))
-            continue
-        # what the accessors must do (independent of the model)
-        if (m is not None) != (0 <= i < n) or (m is not None and m is not a.content[i]):
-            ctx.violation("frag-maybe-child", "maybe_child(i) is not the i-th child for 0 <= i < child_count and None otherwise",
-                          dict(base, index=i))
-        if (stc == "ok") != (-n <= i < n):
-            ctx.count("child-outcome-unexpected")
-        enc = lambda x: None if x is None else info.node(x)
-        val = [{"ok": info.node(c)} if stc == "ok" else {"err": "internal" if stc not in ("failed", "valueError") else stc},
-               enc(m), enc(a.first_child), enc(a.last_child), a.child_count]
-        _req(reqs, metas, "foChildren", {"f": A, "index": i}, dict(base, fn="child", index=i), "ok", val)
+    check_accessors(ctx, info, a, reqs, metas, rng, wf, base)
     # ---- eq
     others = [b, Fragment(list(a.content), a.size + 3), Fragment.from_json(schema, ja) if ja else Fragment.empty]
     if a.content:
@@ -314,22 +344,6 @@ def check_ops(ctx, info, a, b, node, reqs, metas, rng, wf=True):
             ctx.count("eq:%s" % r)
         _req(reqs, metas, "foEq", {"a": A, "b": fobj(info, o)}, dict(base, fn="eq", other=jsons(o.content)), st,
              r if st == "ok" else None)
-    # ---- find_index
-    for _ in range(3):
-        pos = rng.randint(-1, len(ta) + 2)
-        rnd = rng.choice([-1, -1, 1, 0])
-        st, r = outcome(lambda: a.find_index(pos, rnd))
-        ctx.count("find_index%s:%s" % (tag, st))
-        if wf and st == "ok":
-            off = sum(c.node_size for c in a.content[:r["index"]])
-            inside = r["offset"] == off and (off <= pos if rnd <= 0 else off >= pos or pos == 0)
-            if not inside:
-                ctx.violation("frag-find-index", "find_index offset is not the start of the indexed child on the right side of pos",
-                              dict(base, pos=pos, round=rnd, got=r))
-        elif wf and 0 <= pos <= len(ta):
-            ctx.violation("frag-find-index-raises", f"find_index raised {r} on a position inside", dict(base, pos=pos, round=rnd))
-        _req(reqs, metas, "foFindIndex", {"f": A, "pos": pos, "round": rnd}, dict(base, fn="find_index", pos=pos, round=rnd),
-             st, [r["index"], r["offset"]] if st == "ok" else None)
 
 
 # ---------------------------------------------------------------------------------------------- through Transform
@@ -342,6 +356,9 @@ def check_insert(ctx, info, d, toks, reqs, metas, rng, palette):
     if got is None:
         return
     p, nodes = got
+    if not gen.pair_aligned(d, p):
+        ctx.count("insert-texts:inside-a-surrogate-pair")
+        return
     if rng.random() < 0.5 and len(palette) > 1:
         # a second run with another mark set allowed at the position, when there is one
         try:
@@ -374,7 +391,7 @@ def check_insert(ctx, info, d, toks, reqs, metas, rng, palette):
 # ---------------------------------------------------------------------------------------------- entry
 def run(ctx, pools, reqs, metas, flush):
     rng = ctx.rng
-    n_arr = ctx.budget(10, 40)
+    n_arr = ctx.budget(16, 60)
     for info, docs in pools:
         schema = info.schema
         if "text" not in schema.nodes:
@@ -410,3 +427,22 @@ def run(ctx, pools, reqs, metas, flush):
             check_insert(ctx, info, d, doc_tokens(d), reqs, metas, rng, palette)
         if len(reqs) >= 15000:
             flush()
+
+
+def run_accessors(ctx, info, docs, reqs, metas):
+    """C09: the accessors on the content of every node of the generated documents (and on a copy with a wrong stored size)"""
+    rng = ctx.rng
+    for d in docs:
+        frs = [d.content]
+
+        def it(node, pos, parent, index, frs=frs):
+            if not node.is_leaf and node.content.child_count:
+                frs.append(node.content)
+            return True
+        d.descendants(it)
+        for fr in rng.sample(frs, min(len(frs), 4)):
+            ctx.case(["frag-accessors", info.name, jsons(fr.content)], nontrivial=fr.child_count > 0)
+            check_accessors(ctx, info, fr, reqs, metas, rng, wf=True)
+            if rng.random() < 0.25:
+                ctx.count("stale-cache-cases")
+                check_accessors(ctx, info, stale(rng, fr), reqs, metas, rng, wf=False)
